@@ -269,7 +269,7 @@ def reduce_sum(arr, axis=None, keepdims=False):
             if ln is not None and ln <= 4:
                 tot = None
                 for jv in range(ln):
-                    term = S(rec(ai + 1, dict(bound, **{a: z3.IntVal(jv)})))
+                    term = S(rec(ai + 1, {**bound, a: z3.IntVal(jv)}))
                     tot = term if tot is None else tot + term
                 return tot if tot is not None else 0.0
             return sigma(n, lambda j, _a=a, _ai=ai: rec(_ai + 1, {**bound, _a: j}))
@@ -443,6 +443,19 @@ def expand(x, shape):
     return _like(r, x)
 
 
+def flip(x, dims):
+    """torch.flip(x, dims): a COPY with the listed axes reversed."""
+    if len(dims) == 1 and isinstance(dims[0], (tuple, list)):
+        dims = tuple(dims[0])
+    axes = {int(d) % x.ndim for d in dims}
+    xf, shape = x.fn, tuple(x.shape)
+
+    def fn(*idx):
+        return xf(*[lift(shape[a]) - 1 - i if a in axes else i for a, i in enumerate(idx)])
+
+    return _like(SymArr(shape, fn, x.kind), x)
+
+
 def fresh_like(ctx, name, shape, kind="real", as_type=None):
     a = ctx.fresh_arr(name, tuple(shape), kind if kind in ("int", "real", "bool") else "real")
     if as_type is not None:
@@ -519,6 +532,19 @@ def install(reg):
                 return _red(_b, axis if axis is not None else dim, keepdim or keepdims)
             bound_r._sym_ok = True
             return bound_r
+        if name == "flip" and not base.pylist:
+            def bound_f(*dims, _b=base):
+                return flip(_b, dims)
+            bound_f._sym_ok = True
+            return bound_f
+        if name in ("min", "max") and not base.pylist:
+            def bound_m(*a, _b=base, _n=name, **kw):
+                if a or kw:
+                    raise OutOfSubset(f"{_n}() with arguments on a symbolic array")
+                # the extreme value of the array: some real number (unspecified - no contract in scope depends on which)
+                return interp.ctx.fresh(f"array_{_n}", "real")
+            bound_m._sym_ok = True
+            return bound_m
         if name == "expand" and not base.pylist:
             def bound_e(*shape, _b=base):
                 return expand(_b, shape)
@@ -819,6 +845,58 @@ def install(reg):
         return interp.native(torch.sum, x, dim=dim, keepdim=keepdim) if dim is not None else interp.native(torch.sum, x)
 
     M[torch.sum] = m_t_sum
+
+    def m_t_mean(interp, x, dim=None, keepdim=False, **kw):
+        if "axis" in kw and dim is None:
+            dim = kw.pop("axis")
+        if isinstance(x, SymArr):
+            return reduce_mean(x, dim, keepdim)
+        return interp.native(torch.mean, x, dim=dim, keepdim=keepdim) if dim is not None else interp.native(torch.mean, x)
+
+    M[torch.mean] = m_t_mean
+
+    def m_t_deg2rad(interp, x, **kw):
+        if isinstance(x, SymArr):
+            return _like(elementwise(lambda e: S(e) * Sym(V.PI) / 180, x, kind="real"), x)
+        if isinstance(x, Sym):
+            return x * Sym(V.PI) / 180
+        return interp.native(torch.deg2rad, x, **kw)
+
+    M[torch.deg2rad] = m_t_deg2rad
+
+    def m_t_flip(interp, x, dims):
+        if isinstance(x, SymArr):
+            return flip(x, (dims,))
+        return interp.native(torch.flip, x, dims)
+
+    M[torch.flip] = m_t_flip
+
+    def m_t_argmin(interp, x, dim=None, keepdim=False):
+        if isinstance(x, SymArr):
+            if dim is not None or x.ndim != 1:
+                raise OutOfSubset("torch.argmin along an axis of a symbolic array")
+            i = interp.ctx.fresh("argmin", "int")  # some position of the array (which one is unspecified)
+            interp.ctx.assume(z3.And(i.t >= 0, i.t < lift(x.shape[0])))
+            return i
+        return interp.native(torch.argmin, x) if dim is None else interp.native(torch.argmin, x, dim=dim, keepdim=keepdim)
+
+    M[torch.argmin] = m_t_argmin
+    M[torch.argmax] = m_t_argmin
+
+    # element of a CONCRETE tensor at a symbolic position: some real number (its value is unspecified)
+    prev_tget = reg.getitem_models.get(torch.Tensor)
+
+    def tensor_getitem(interp, base, key):
+        if isinstance(key, Sym) and base.ndim == 1:
+            n = base.shape[0]
+            if interp.ctx.branch(z3.Or(key.t < -n, key.t >= n)):
+                raise RaiseSig(IndexError("index out of range"))
+            return interp.ctx.fresh("tensor_element", "real")
+        if prev_tget is not None:
+            return prev_tget(interp, base, key)
+        return NotImplemented
+
+    reg.getitem_models[torch.Tensor] = tensor_getitem
 
     # ---------------------------------------------------------------- grid_sample at integer pixel coordinates
     def m_grid_sample(interp, inp, grid, mode="bilinear", padding_mode="zeros", align_corners=None):
